@@ -1208,9 +1208,17 @@ the ones that failed to resolve removed."""
             uscore_enums[uscored] = enum
             uscore_enums[enum.name] = enum
 
+        quark_functions = []
         for node in self._namespace.values():
-            if not isinstance(node, ast.ErrorQuarkFunction):
-                continue
+            if isinstance(node, ast.ErrorQuarkFunction):
+                quark_functions.append(node)
+            elif isinstance(node, ast.Class):
+                # foo_parser_error_quark() was turned into the static method
+                # error_quark() of FooParser and left the toplevel namespace
+                quark_functions.extend(func for func in node.static_methods
+                                       if isinstance(func, ast.ErrorQuarkFunction))
+
+        for node in quark_functions:
             full = node.symbol[:-len('_quark')]
             ns, short = self._transformer.split_csymbol(node.symbol)
             short = short[:-len('_quark')]
@@ -1224,7 +1232,7 @@ the ones that failed to resolve removed."""
                     enum = uscore_enums.get(short)
             if enum is not None:
                 enum.error_domain = node.error_domain
-            else:
+            elif self._namespace.get(node.name) is node:
                 message.warn_node(node,
                     """%s: Couldn't find corresponding enumeration""" % (node.symbol, ))
 
